@@ -1,6 +1,7 @@
 package main
 
 import (
+	"sort"
 	"go/ast"
 	"fmt"
 	"go/token"
@@ -48,12 +49,31 @@ func runC20(c *Ctx) {
 	// the sort routine: calls sort.Float64s on the values field
 	var sortFn *ssa.Function
 	var methods []*ssa.Function
+	var cands []*ssa.Function
 	for i := 0; i < ds.NumMethods(); i++ {
-		f := c.P.SSA.FuncValue(ds.Method(i))
-		if f == nil {
-			continue
+		if f := c.P.SSA.FuncValue(ds.Method(i)); f != nil {
+			methods = append(methods, f)
+			cands = append(cands, f)
 		}
-		methods = append(methods, f)
+	}
+	// the sort routine may also be a plain function of the package taking the dataset first
+	if pk := c.P.Pkgs[pkgDataset]; pk != nil {
+		if sp := c.P.SSA.Package(pk.Types); sp != nil {
+			var names []string
+			for n := range sp.Members {
+				names = append(names, n)
+			}
+			sort.Strings(names)
+			for _, n := range names {
+				if fn, ok := sp.Members[n].(*ssa.Function); ok && len(fn.Params) >= 1 && fn.Signature.Recv() == nil {
+					if pt, ok := fn.Params[0].Type().(*types.Pointer); ok && types.Identical(pt.Elem(), ds) {
+						cands = append(cands, fn)
+					}
+				}
+			}
+		}
+	}
+	for _, f := range cands {
 		tc := newTermCtx(c.P)
 		for _, b := range f.Blocks {
 			for _, in := range b.Instrs {
@@ -67,8 +87,11 @@ func runC20(c *Ctx) {
 			}
 		}
 	}
+	if sortFn != nil {
+		roleAnchors[sortFn] = true
+	}
 	if sortFn == nil {
-		c.R.undecided(r1, "anchor/sort-routine", "", "", "a method sorting the values with sort.Float64s", "none")
+		c.R.undecided(r1, "anchor/sort-routine", "", "", "a method (or a function taking the dataset) sorting the values with sort.Float64s", "none")
 		return
 	}
 	// D1a: on every path, a rank-dependent read of Values comes after sort() on the same receiver
@@ -78,7 +101,7 @@ func runC20(c *Ctx) {
 		if f == sortFn || !ast.IsExported(f.Name()) {
 			continue // unexported helpers are judged in the context of their exported callers
 		}
-		paths, _ := exec(c, f, nil, 2)
+		paths, _ := execWith(c, f, nil, 2, func(cal *ssa.Function) bool { return cal != sortFn && inlineNewHelpers(cal) })
 		type verdict struct {
 			ok    bool
 			found string
@@ -126,7 +149,7 @@ func runC20(c *Ctx) {
 		if f == sortFn {
 			continue
 		}
-		paths, _ := exec(c, f, nil, 2)
+		paths, _ := execWith(c, f, nil, 2, func(cal *ssa.Function) bool { return cal != sortFn && inlineNewHelpers(cal) })
 		for i, p := range paths {
 			lastW, lastLower, raised := 0, 0, 0
 			for _, e := range p.Effects {
@@ -155,7 +178,7 @@ func runC20(c *Ctx) {
 	c.R.floor(r1, "paths writing Values", nW, 1)
 	// D1c: the sort routine
 	{
-		paths, _ := exec(c, sortFn, nil, 1)
+		paths, _ := execWith(c, sortFn, nil, 1, func(cal *ssa.Function) bool { return cal != sortFn && inlineNewHelpers(cal) })
 		for i, p := range paths {
 			sorted, raise := 0, 0
 			for _, e := range p.Effects {
@@ -184,7 +207,7 @@ func runC20(c *Ctx) {
 		}
 		dom := mkDomain(paramScalar("q", 1, 2, constPoints("0", "1")),
 			scalarSpec{name: "n", n: 1, point: constPoints("0"), match: func(t *Term) bool { return isRecvField(t, countF) }})
-		paths, _ := exec(c, f, dom, 1)
+		paths, _ := execWith(c, f, dom, 1, func(cal *ssa.Function) bool { return cal != sortFn && inlineNewHelpers(cal) })
 		for qc := 1; qc <= 5; qc++ {
 			for _, empty := range []bool{true, false} {
 				var sel []*Path
@@ -242,7 +265,7 @@ func runC20(c *Ctx) {
 		}
 	}
 	if f := c.P.DeclaredMethod(ds, "Quantile"); c.mustFunc(r2, f, "(*Dataset).Quantile") {
-		ps, _ := exec(c, f, nil, 1)
+		ps, _ := execWith(c, f, nil, 1, func(cal *ssa.Function) bool { return cal != sortFn && inlineNewHelpers(cal) })
 		ok := len(ps) == 1 && isMethodCall(ps[0].RetT[0], "LowerQuantile") && ps[0].RetT[0].Args[0].isRecv() && ps[0].RetT[0].Args[1].isParam(1)
 		c.R.check(ok, r2, shortFn(f)+"/is-lower", shortFn(f), c.fpos(f), "Quantile(q) = LowerQuantile(q)", "")
 	}
@@ -250,7 +273,7 @@ func runC20(c *Ctx) {
 	// every append to Values is paired, on the same path, with the matching Count update — and vice versa
 	nPairs := 0
 	for _, f := range methods {
-		ps, _ := exec(c, f, nil, 2)
+		ps, _ := execWith(c, f, nil, 2, func(cal *ssa.Function) bool { return cal != sortFn && inlineNewHelpers(cal) })
 		for i, p := range ps {
 			single, bulk, inc1, incBulk, otherCount := 0, 0, 0, 0, 0
 			for _, e := range p.Effects {
@@ -294,7 +317,7 @@ func runC20(c *Ctx) {
 		if !c.mustFunc(r3, f, "(*Dataset)."+x.name) {
 			continue
 		}
-		ps, _ := exec(c, f, nil, 1)
+		ps, _ := execWith(c, f, nil, 1, func(cal *ssa.Function) bool { return cal != sortFn && inlineNewHelpers(cal) })
 		ok := len(ps) > 0
 		found := ""
 		for _, p := range ps {
@@ -374,7 +397,33 @@ func runC20(c *Ctx) {
 				}
 			}
 		}
-		c.R.check(readds || bulk, r3, shortFn(f)+"/re-adds-all", shortFn(f), c.fpos(f), "every element of the argument's Values is added (Add in a full range loop, or a bulk append)", fmt.Sprintf("per-element=%v bulk=%v", readds, bulk))
+		// third form: Add written out in the loop — `d.Values = append(d.Values, o.Values[i])` in a full range loop
+		// (the pairing of every append with a count increment and the lowering of the flag are C20-D3/D1 path rules)
+		perElem := false
+		fromArg := map[ssa.Value]bool{}
+		for _, b := range f.Blocks {
+			for _, in := range b.Instrs {
+				if st, ok := in.(*ssa.Store); ok {
+					if ia, ok := st.Addr.(*ssa.IndexAddr); ok {
+						vt := tc.Of(st.Val)
+						if _, isAlloc := ia.X.(*ssa.Alloc); isAlloc && vt.Op == "index" && vt.Args[0].Op == "field" && vt.Args[0].Sym == valuesF && vt.Args[0].Args[0].isParam(1) && isRangeIndex(indexValueOf(vt)) {
+							fromArg[ia.X] = true
+						}
+					}
+				}
+			}
+		}
+		for _, b := range f.Blocks {
+			for _, in := range b.Instrs {
+				if st, ok := in.(*ssa.Store); ok {
+					at, vt := tc.Of(st.Addr), tc.Of(st.Val)
+					if isRecvField(at, valuesF) && vt.Op == "builtin" && vt.Sym == "append" && isRecvField(vt.Args[0], valuesF) && vt.Args[1].Op == "slice" && vt.Args[1].Args[0].V != nil && fromArg[vt.Args[1].Args[0].V] {
+						perElem = true
+					}
+				}
+			}
+		}
+		c.R.check(readds || bulk || perElem, r3, shortFn(f)+"/re-adds-all", shortFn(f), c.fpos(f), "every element of the argument's Values is added (Add in a full range loop, the same append written out, or a bulk append)", fmt.Sprintf("per-element Add=%v per-element append=%v bulk=%v", readds, perElem, bulk))
 		mods := c.Mod.ModsRooted(f, 1)
 		c.R.check(len(mods) == 0, r3, shortFn(f)+"/argument-untouched", shortFn(f), c.fpos(f), "Merge does not write its argument", strings.Join(mods, " "))
 	}
